@@ -86,6 +86,9 @@ func verifPlan(kind string, chunked bool, burst bool) zzverif.Plan {
 		return zzverif.Plan{Kind: "ok", Status: 503, Chunked: chunked, CT: "text/html", Body: "<html><body><h1>503 Service Unavailable</h1></body></html>"}
 	case "reset_after", "close_after":
 		return zzverif.Plan{Kind: kind, Status: 200, N: verifN, K: verifK, Chunked: chunked}
+	case "cut_noct":
+		// a 200 answer WITHOUT a Content-Type, cut after a few tokens: whatever ends up at the client is that prefix
+		return zzverif.Plan{Kind: "reset_after", Status: 200, N: verifN, K: verifK, Chunked: chunked, CT: "-"}
 	case "http_cut":
 		// an error status whose body is cut off after a few tokens: one failed attempt, however it ends
 		return zzverif.Plan{Kind: "reset_after", Status: 500, N: verifN, K: verifK, Chunked: chunked}
@@ -327,8 +330,8 @@ func TestVerif_Dispatch(t *testing.T) {
 				}
 				p := verifPlanFor(curRoute.Load().(string), kind, chunked, inBurst.Load())
 				pst := p.Status
-				if kind == "http_cut" {
-					kind = "reset_after" // the specification knows it as a reset after the response started, with status 500
+				if kind == "http_cut" || kind == "cut_noct" {
+					kind = "reset_after" // the specification knows both as a reset after the response started
 				}
 				emit("BackendRecv", "r", r.ReqID, "e", be.Name, "a", r.Attempt, "kind", kind, "pst", pst,
 					"pn", p.N, "pk", p.K, "pb", len(p.Body), "sig", verifSig(r), "gs", stk.gaugeOf(be), "go", stk.gaugeOthers(be), "target", r.Target)
